@@ -13,8 +13,12 @@ AES-ECB encryptions of the `cryptography` package.
     Y0 = E(K, B0); Yi = E(K, Bi xor Yi-1); T = first 4 octets of the last Y
     authentication only  : A = SCF | APDU, P = empty, Q = 0 ; ASDU = SeqNr | APDU | T
     authenticated encrypt: A = SCF, P = APDU, Q = len(APDU);
-                           S_i = E(K, Ctr0 with last octet + i)
-                           MAC = T xor S0[:4] ; C = APDU xor (S1 | S2 | ...)
+                           S_i = E(K, Ctr0 with last octet + i), S = S0 | S1 | S2 ...
+                           MAC = T xor S[0:4] ; C = APDU xor S[4:4+len(APDU)]
+                           (one continuous key stream: the 4 octet MAC consumes the
+                           first 4 octets, the APDU continues behind it - settled by
+                           the AN158 Annex A example frame and a frame recorded from
+                           a real device, both in VECTORS below)
                            ASDU = SeqNr | C | MAC
     secured APDU on the wire = 03 F1 | SCF | ASDU  (upper six bits of octet 0 = TPCI)
 """
@@ -68,6 +72,16 @@ def ctr_stream_block(key: bytes, c0: bytes, i: int) -> bytes:
     return aes_block(key, c0[:15] + bytes([c0[15] + i]))
 
 
+def key_stream(key: bytes, c0: bytes, n: int) -> bytes:
+    """First n octets of S0 | S1 | ..."""
+    out = bytearray()
+    i = 0
+    while len(out) < n:
+        out += ctr_stream_block(key, c0, i)
+        i += 1
+    return bytes(out[:n])
+
+
 def secure(
     key: bytes, *, alg: int, scf: int, seq: int, src: int, dst: int, group: bool, eff: int, tpci: int, apdu: bytes
 ) -> tuple[bytes, bytes]:
@@ -78,12 +92,8 @@ def secure(
         return apdu, t
     if alg == ALG_ENC:
         t = cbc_mac(key, block0(seq, src, dst, group, eff, tpci, len(apdu)), bytes([scf]), apdu)[:4]
-        c0 = ctr0(seq, src, dst)
-        mac = _xor(t, ctr_stream_block(key, c0, 0)[:4])
-        out = bytearray()
-        for n, i in enumerate(range(0, len(apdu), 16), start=1):
-            out += _xor(apdu[i : i + 16], ctr_stream_block(key, c0, n))
-        return bytes(out), mac
+        ks = key_stream(key, ctr0(seq, src, dst), 4 + len(apdu))
+        return _xor(apdu, ks[4:]), _xor(t, ks[:4])
     raise ValueError("algorithm")
 
 
@@ -107,12 +117,10 @@ def unsecure(key: bytes, *, scf: int, src: int, dst: int, group: bool, eff: int,
         t = cbc_mac(key, block0(seq, src, dst, group, eff, tpci, 0), bytes([scf]) + body, b"")[:4]
         return body if t == mac else None
     if alg == ALG_ENC:
-        c0 = ctr0(seq, src, dst)
-        plain = bytearray()
-        for n, i in enumerate(range(0, len(body), 16), start=1):
-            plain += _xor(body[i : i + 16], ctr_stream_block(key, c0, n))
-        t = cbc_mac(key, block0(seq, src, dst, group, eff, tpci, len(plain)), bytes([scf]), bytes(plain))[:4]
-        return bytes(plain) if _xor(t, ctr_stream_block(key, c0, 0)[:4]) == mac else None
+        ks = key_stream(key, ctr0(seq, src, dst), 4 + len(body))
+        plain = _xor(body, ks[4:])
+        t = cbc_mac(key, block0(seq, src, dst, group, eff, tpci, len(plain)), bytes([scf]), plain)[:4]
+        return plain if _xor(t, ks[:4]) == mac else None
     return None
 
 
@@ -130,16 +138,24 @@ _KEY_0_4_0 = bytes.fromhex("dfdf23a59fbb40404091d1c162087e8b")
 # (frame octets from Ctrl1 on, plain APDU) - literal frames copied from
 # /repo/test/secure_tests/data_secure_test.py; the first was recorded from a real
 # device (4.0.9 -> 0/4/0 GroupValueResponse 74 29 29, seq 155806854986).
+_KEY_AN158 = bytes.fromhex("000102030405060708090a0b0c0d0e0f")  # tool key of the AN158 Annex A example
 VECTORS = [
-    ("3ce0400904001103f110002446cfef4ac085e7092ab062b44d", "0040742929"),
-    ("bce0500104000e03f11000254ae1cb67cd184afe5744", "0000"),
-    ("3ce0500104001103f11000254ae1cb67cd98e577b519be47bb", "0080ff0005"),
+    # AN158 v07 KNX Data Security, Annex A: A_PropertyValue_Write PID_GRP_KEY_TABLE, point-to-point,
+    # tool access, A+C, seq 4, data 20..2F (also quoted in data_secure_test.py)
+    (
+        "b060ff67ff002203f1900000000000046767242a2308ca76a11774214ee4cf5d94909f743d050d8fc168",
+        "03d705351001202122232425262728292a2b2c2d2e2f",
+        _KEY_AN158,
+    ),
+    ("3ce0400904001103f110002446cfef4ac085e7092ab062b44d", "0040742929", _KEY_0_4_0),
+    ("bce0500104000e03f11000254ae1cb67cd184afe5744", "0000", _KEY_0_4_0),
+    ("3ce0500104001103f11000254ae1cb67cd98e577b519be47bb", "0080ff0005", _KEY_0_4_0),
 ]
 
 
 def selftest() -> None:
     assert aes_block(_FIPS_KEY, _FIPS_PT) == _FIPS_CT
-    for frame_hex, plain_hex in VECTORS:
+    for frame_hex, plain_hex, vkey in VECTORS:
         f = bytes.fromhex(frame_hex)
         plain = bytes.fromhex(plain_hex)
         c2 = f[1]
@@ -152,15 +168,15 @@ def selftest() -> None:
         raw_asdu = f[10:]
         seq = int.from_bytes(raw_asdu[:6], "big")
         kw = dict(scf=scf, src=src, dst=dst, group=bool(c2 & 0x80), eff=c2 & 0x0F, tpci=tpci)
-        got = unsecure(_KEY_0_4_0, asdu_raw=raw_asdu, **kw)
+        got = unsecure(vkey, asdu_raw=raw_asdu, **kw)
         assert got == plain, (frame_hex, got)
-        again = secured_apdu_octets(_KEY_0_4_0, alg=(scf >> 4) & 7, seq=seq, apdu=plain, **kw)
+        again = secured_apdu_octets(vkey, alg=(scf >> 4) & 7, seq=seq, apdu=plain, **kw)
         assert again == f[7:], (frame_hex, again.hex())
         # every protected input matters
-        assert unsecure(_KEY_0_4_0, asdu_raw=raw_asdu, **{**kw, "tpci": 0x04}) is None
-        assert unsecure(_KEY_0_4_0, asdu_raw=raw_asdu, **{**kw, "group": False}) is None
-        assert unsecure(_KEY_0_4_0, asdu_raw=raw_asdu, **{**kw, "eff": 1}) is None
-        assert unsecure(_KEY_0_4_0, asdu_raw=raw_asdu, **{**kw, "src": src ^ 1}) is None
+        assert unsecure(vkey, asdu_raw=raw_asdu, **{**kw, "tpci": tpci ^ 0x04}) is None
+        assert unsecure(vkey, asdu_raw=raw_asdu, **{**kw, "group": not kw["group"]}) is None
+        assert unsecure(vkey, asdu_raw=raw_asdu, **{**kw, "eff": 1}) is None
+        assert unsecure(vkey, asdu_raw=raw_asdu, **{**kw, "src": src ^ 1}) is None
     # authentication only: round trip and sensitivity (no literal vector available)
     k = bytes(range(16))
     kw = dict(scf=0x00, src=0x1101, dst=0x0801, group=True, eff=0, tpci=0)
